@@ -13,10 +13,27 @@ SMALLNUMS = [b"0", b"1", b"2", b"3", b"-1", b"-2", b"5", b"10"]
 FLOATS = [b"0", b"1", b"-1", b"2", b"3", b"10", b"(1", b"(2", b"abc", b"", b"1.5", b"inf", b"-inf", b"+inf", b"nan"]
 
 
+# option words of the protocol, used now and then as ordinary values / members / key names: a word is an
+# option only in the positions its command's syntax gives it
+OPTWORDS = [b"NX", b"nx", b"XX", b"xx", b"Nx", b"KEEPTTL", b"keepttl", b"GET", b"get", b"EX", b"PX", b"EXAT", b"PXAT", b"COUNT", b"count",
+            b"MATCH", b"match", b"LIMIT", b"WITHSCORES", b"withscores", b"BEFORE", b"AFTER", b"BIT", b"BYTE", b"CH", b"INCR", b"GT", b"LT",
+            b"TYPE", b"REV", b"BYSCORE", b"BYLEX", b"WEIGHTS", b"AGGREGATE", b"ASC", b"DESC", b"ANY", b"STORE"]
+
+
 class R(gen_api.G):
     def __init__(self, rng, realtime=False, conns=("c1",)):
         super().__init__(rng, realtime)
         self.conns = list(conns)
+
+    def val(self):
+        if self.r.random() < 0.07:
+            return hx(self.r.choice(OPTWORDS))
+        return super().val()
+
+    def member(self):
+        if self.r.random() < 0.05:
+            return hx(self.r.choice(OPTWORDS))
+        return super().member()
 
     # --- argument atoms ---------------------------------------------------------------------
     def k(self, fam, wrong=0.12):
